@@ -54,9 +54,14 @@ type UpstreamState struct {
 
 // Upstreamは、アップストリームです。
 type Upstream struct {
-	mu     sync.RWMutex
-	ctx    context.Context
-	cancel context.CancelFunc
+	mu sync.RWMutex
+	// writers counts the WriteDataPoints calls between their draining check and the hand-over of
+	// their points to the flush loop; Close waits for them after marking the stream draining.
+	writersMu   sync.Mutex
+	writers     int
+	writersIdle chan struct{}
+	ctx         context.Context
+	cancel      context.CancelFunc
 
 	ID         uuid.UUID      // ストリームID
 	ServerTime time.Time      // UpstreamOpenResponseで返却されたサーバー時刻
@@ -137,6 +142,21 @@ func (u *Upstream) Close(ctx context.Context, opts ...UpstreamCloseOption) error
 	beforeStatus := u.state.Swap(streamStatusDraining)
 	if beforeStatus == streamStatusDraining {
 		return errors.New("already draining")
+	}
+	// writers that saw the stream open hand their points to the flush loop first, so that the flush
+	// below includes them; later writers see the draining state
+	u.writersMu.Lock()
+	var idle chan struct{}
+	if u.writers > 0 {
+		idle = make(chan struct{})
+		u.writersIdle = idle
+	}
+	u.writersMu.Unlock()
+	if idle != nil {
+		select {
+		case <-idle:
+		case <-ctx.Done():
+		}
 	}
 	if beforeStatus != streamStatusResuming {
 		if err := u.waitToSendAllDataPointsAndReceiveAllAck(ctx); err != nil {
@@ -257,12 +277,26 @@ func (u *Upstream) isClosed() bool {
 
 // WriteDataPointsは、データポイントを内部バッファに書き込みます。
 func (u *Upstream) WriteDataPoints(ctx context.Context, dataID *message.DataID, dps ...*message.DataPoint) error {
+	u.writersMu.Lock()
 	if u.isClosed() {
+		u.writersMu.Unlock()
 		return errors.ErrStreamClosed
 	}
 	if u.state.Is(streamStatusDraining) {
+		u.writersMu.Unlock()
 		return errors.New("draining")
 	}
+	u.writers++
+	u.writersMu.Unlock()
+	defer func() {
+		u.writersMu.Lock()
+		u.writers--
+		if u.writers == 0 && u.writersIdle != nil {
+			close(u.writersIdle)
+			u.writersIdle = nil
+		}
+		u.writersMu.Unlock()
+	}()
 	if len(dps) == 0 {
 		// nothing to buffer: an empty group would later be cut into a chunk without data points
 		return nil
